@@ -269,6 +269,7 @@ type Coverage struct {
 	Bounded      []json.RawMessage `json:"bounded_standins"`
 	Failed       []Sample          `json:"failed,omitempty"`
 	VacuousGroups []string         `json:"vacuous_groups,omitempty"`
+	UndecidedGroups []string       `json:"cover_groups_undecided,omitempty"`
 	Contracts    map[string]string `json:"contract_files_sha256"`
 	ContractLock string            `json:"contract_lock"`
 }
@@ -322,6 +323,7 @@ func buildReport(p *Prog, rr *RunResult, obls []*Obligation, prop, tier string, 
 	cov.TrustedFuncs = rr.Trusted
 	kf := loadKnownFindings(verif)
 	var coverGroups map[string]bool
+	var coverUndecided map[string]bool
 	sort.Slice(obls, func(i, j int) bool { return obls[i].Name < obls[j].Name })
 	for _, o := range obls {
 		if o.Kind == "cover" {
@@ -331,11 +333,21 @@ func buildReport(p *Prog, rr *RunResult, obls []*Obligation, prop, tier string, 
 			if _, seen := coverGroups[o.CoverGroup]; !seen {
 				coverGroups[o.CoverGroup] = false
 			}
-			if o.Res.Status == "sat" {
+			switch o.Res.Status {
+			case "sat":
 				cov.Vacuity["covers_reached"]++
 				coverGroups[o.CoverGroup] = true
-			} else {
+			case "unsat":
 				cov.Vacuity["covers_not_reached"]++
+			default:
+				// no solver produced a model and none refuted the cover (typically a path whose
+				// formula contains the quantified definition of append(a, b...)): the group is
+				// undecided, which is reported but is not evidence of vacuity
+				cov.Vacuity["covers_undecided"]++
+				if coverUndecided == nil {
+					coverUndecided = map[string]bool{}
+				}
+				coverUndecided[o.CoverGroup] = true
 			}
 			continue
 		}
@@ -406,11 +418,16 @@ func buildReport(p *Prog, rr *RunResult, obls []*Obligation, prop, tier string, 
 		rep.EngineError = "vacuity: no obligations generated for " + prop
 	}
 	var vac []string
+	var undec []string
 	for g, ok := range coverGroups {
-		if !ok {
+		if !ok && coverUndecided[g] {
+			undec = append(undec, g)
+		} else if !ok {
 			vac = append(vac, g)
 		}
 	}
+	sort.Strings(undec)
+	cov.UndecidedGroups = undec
 	sort.Strings(vac)
 	cov.VacuousGroups = vac
 	if len(vac) > 0 {
